@@ -52,3 +52,12 @@ def r_layer_views(run, tree):
 
 
 RULES = [r_layer_views, r1_r2, r3, r5]
+
+
+def t_map_space(run, tree):
+    run.rule("C11.T1", "thorough: map() folded over 60 scenarios (thin / thick x every ordered pair of the layer operations mean, sum, nansum, max, min x the forms of the resolution dict): "
+             "slots, rendered layers, geometry and inputs as in the quick tier", "D7 fold of plot/map.py::map with token layers and symbolic numpy values", "", floor=100)
+    mf.check_map(run, tree, scenarios=mf.thorough_scenarios())
+
+
+THOROUGH_RULES = [t_map_space]
